@@ -72,17 +72,27 @@ class Machine:
         """Interpret fn on a copy of state; returns list of resulting states (forks on unknown tests
         unless choose(test_node) decides)."""
         selfname = fn.args.args[0].arg
-        return self._block(fn.body, [dict(state)], env, selfname, choose, depth)
+        outs = self._block(fn.body, [dict(state)], env, selfname, choose, depth)
+        for o_ in outs:
+            o_.pop("__ret__", None)
+        return outs
 
     def _block(self, stmts, states, env, selfname, choose, depth):
         for st in stmts:
             nxt = []
             for s in states:
-                nxt.extend(self._stmt(st, s, env, selfname, choose, depth))
+                if s.get("__ret__"):
+                    nxt.append(s)                     # this path has returned: nothing further runs on it
+                else:
+                    nxt.extend(self._stmt(st, s, env, selfname, choose, depth))
             states = nxt
         return states
 
     def _stmt(self, st, state, env, selfname, choose, depth):
+        if isinstance(st, (ast.Return, ast.Raise)):
+            state = dict(state)
+            state["__ret__"] = True
+            return [state]
         if isinstance(st, ast.Assign):
             for t in st.targets:
                 if isinstance(t, ast.Attribute) and isinstance(t.value, ast.Name) and t.value.id == selfname \
@@ -105,7 +115,10 @@ class Machine:
             c, fn = self.prog.find_method(self.ci, st.value.func.attr)
             if fn is not None:
                 sub_env = {}
-                return self._block(fn.body, [state], sub_env, fn.args.args[0].arg, choose, depth - 1)
+                outs = self._block(fn.body, [state], sub_env, fn.args.args[0].arg, choose, depth - 1)
+                for o_ in outs:
+                    o_.pop("__ret__", None)           # the callee returned; its caller goes on
+                return outs
         return [state]
 
 
